@@ -69,6 +69,13 @@ def main():
         finally:
             shutil.rmtree(tmp, ignore_errors=True)
         print(results[-1], flush=True)
+    # machine-readable report (merged with earlier partial runs), used by tools/mkmatrix.py
+    rep_path = os.path.join(HERE, "mutants_report.json")
+    report = json.load(open(rep_path)) if os.path.exists(rep_path) else {}
+    for name, verdicts, note in results:
+        report[name] = dict(tier=tier, verdicts=verdicts if isinstance(verdicts, list) else str(verdicts),
+                            note=note)
+    json.dump(report, open(rep_path, "w"), indent=1, sort_keys=True)
     missed = [r for r in results if not isinstance(r[1], list)
               or not any(v[1] == "DETECTED" for v in r[1])]
     print(f"\n{len(results) - len(missed)}/{len(results)} mutants detected")
